@@ -618,6 +618,24 @@ Qed.
 
 Ltac dead := solve [split; [reflexivity|]; let R := fresh "R" in intro R; cbn in R; first [discriminate | congruence]].
 
+Lemma walk_free : forall dh h path c c',
+  heapfree h -> cellfree c = true -> walk dh h c path = inl c' -> cellfree c' = true.
+Proof.
+  intros dh h. induction path as [|s rest IH]; intros c c' Hh Hc E; cbn in E.
+  - inversion E; subst. exact Hc.
+  - destruct c as [z|i]; [discriminate|]. destruct (cellfree_ptr _ Hc) as [n Hn]. subst i. cbn [hget] in E.
+    destruct (nth_error h n) as [[l|d]|] eqn:En; [| |destruct s; discriminate].
+    + destruct s; [|discriminate].
+      destruct (nth_error l (List.length l - 1)) as [c1|] eqn:El; [|discriminate].
+      apply (IH c1 c' Hh); [|exact E].
+      pose proof (Forall_nth _ _ _ _ Hh En) as Ho. cbn in Ho. rewrite forallb_forall in Ho.
+      apply Ho. eapply nth_error_In. exact El.
+    + destruct s as [|k]; [discriminate|].
+      destruct (aget k d) as [c1|] eqn:Eg; [|discriminate].
+      apply (IH c1 c' Hh); [|exact E].
+      pose proof (Forall_nth _ _ _ _ Hh En) as Ho. cbn in Ho. eapply forallb_aget; eassumption.
+Qed.
+
 (* the HISTORICAL machine under the discipline; [step] (below, F) reuses it with T = [] *)
 Lemma aliasing_step_ok : forall T T1 o dh p dh' p',
   check_op T o = Some T1 -> step_aliasing dh p o = (dh', p') -> pinv T p -> step_post T1 dh dh' p'.
@@ -625,7 +643,7 @@ Proof.
   intros T T1 o dh p dh' p' Hc E Hp. unfold step_aliasing in E.
   destruct (running p) eqn:R; cbn [negb] in E; [|inversion E; subst; split; [reflexivity|intro; congruence]].
   destruct (Hp R) as [Hh Hx].
-  destruct o as [k c|k|k t|k k'|k t|m k t|k z|k s z|ps|ps|k k' n|k z|]; cbn [check_op] in Hc.
+  destruct o as [k c|k|k t|k k'|k t|m k t|k z|k s z|ps|ps|k k' n|k z| |t|e|k k' path]; cbn [check_op] in Hc.
   - (* InjectIn *) inversion Hc; inversion E; subst. split; [reflexivity|]. intros _. cbn.
     split; [assumption|apply ctxfree_set_taint; assumption].
   - (* Unset *) inversion Hc; inversion E; subst. split; [reflexivity|]. intros _. cbn.
@@ -686,6 +704,30 @@ Proof.
   - (* SetInt *) inversion Hc; inversion E; subst. split; [reflexivity|]. intros _. cbn.
     split; [assumption|apply ctxfree_set_untaint; [assumption|reflexivity]].
   - (* Probe *) inversion Hc; inversion E; subst. split; [reflexivity|]. intros _. cbn. split; assumption.
+  - (* SaveError *)
+    destruct (tainted T "runErrors" || byref_tainted T t) eqn:Eo; [discriminate|]. inversion Hc; subst T1.
+    apply orb_false_iff in Eo. destruct Eo as [Et Eb].
+    destruct (fmt FUEL dh t p) as [p1 c] eqn:Ef. destruct (fmt_ok T FUEL dh t _ _ _ Ef) as [A [B C]].
+    destruct (running p1) eqn:R1; [|inversion E; subst; dead].
+    destruct (C Hh Hx Eb eq_refl) as [Hh1 Hcf]. rewrite <- A in Hx.
+    unfold alloc in E. cbn [set_ph ctx ph] in E.
+    set (p2 := set_ph (ph p1 ++ [ODict [("customError", c)]]) p1) in *.
+    assert (Hh2 : heapfree (ph p2)).
+    { cbn. apply heapfree_app; [assumption|]. cbn. rewrite Hcf. reflexivity. }
+    assert (Hx2 : ctxfree T (ctx p2)) by exact Hx.
+    assert (R2 : running p2 = true) by exact R1.
+    change (ctx p1) with (ctx p2) in E.
+    destruct (aget "runErrors" (ctx p2)) as [r|] eqn:Eg.
+    + eapply append_to_ok; try eassumption; [eapply Hx2; eassumption|reflexivity].
+    + inversion E; subst. split; [reflexivity|]. apply bind_new_list_ok; try assumption. reflexivity.
+  - (* Raise *) inversion Hc; inversion E; subst. dead.
+  - (* BindPath *)
+    inversion Hc; subst T1.
+    destruct (aget k' (ctx p)) as [c|] eqn:Eg; [|inversion E; subst; dead].
+    destruct (walk dh (ph p) c path) as [c'|e] eqn:Ew; inversion E; subst; [|dead].
+    split; [reflexivity|]. intros _. cbn. split; [assumption|].
+    destruct (tainted T k') eqn:Et; [apply ctxfree_set_taint; assumption|].
+    apply ctxfree_set_untaint; [assumption|]. eapply walk_free; [exact Hh| |exact Ew]. eapply Hx; eassumption.
 Qed.
 
 (* ---------------- a fresh context *)
@@ -804,7 +846,7 @@ Proof. intros A f l H. induction l as [|x r IH]; cbn; [reflexivity|]. rewrite H.
 Lemma check_op_nil : forall o,
   match o with InjectIn _ _ => False | _ => True end -> check_op [] o = Some [].
 Proof.
-  intros o H. destruct o as [k c|k|k t|k k'|k t|m k t|k z|k s z|ps|ps|k k' n|k z|]; cbn [check_op];
+  intros o H. destruct o as [k c|k|k t|k k'|k t|m k t|k z|k s z|ps|ps|k k' n|k z| |t|e|k k' path]; cbn [check_op];
     try contradiction; try reflexivity.
   - destruct t as [z|m k'|l|d]; cbn [bind_taint].
     + reflexivity.
@@ -815,6 +857,7 @@ Proof.
   - cbn [tainted existsb orb]. rewrite (byref_nil t). reflexivity.
   - apply fold_taint_nil. exact merge_taint_nil.
   - apply fold_taint_nil. exact defaults_taint_nil.
+  - cbn [tainted existsb orb]. rewrite (byref_nil t). reflexivity.
 Qed.
 
 Lemma inject_fixed_ok : forall fuel k c dh p dh' p',
@@ -840,7 +883,7 @@ Proof.
   assert (Hother : match o with InjectIn _ _ => False | _ => True end ->
                    step_aliasing dh p o = (dh', p') -> dh' = dh /\ pinv [] p').
   { intros Ho Es. exact (aliasing_step_ok [] [] o dh p dh' p' (check_op_nil o Ho) Es Hp). }
-  destruct o as [k c|k|k t|k k'|k t|m k t|k z|k s z|ps|ps|k k' n|k z|]; try (apply Hother; [exact I|exact E]).
+  destruct o as [k c|k|k t|k k'|k t|m k t|k z|k s z|ps|ps|k k' n|k z| |t|e|k k' path]; try (apply Hother; [exact I|exact E]).
   exact (inject_fixed_ok FUEL k c dh p dh' p' E Hp).
 Qed.
 
